@@ -2024,3 +2024,818 @@ Proof.
   replace (digits_value 16 (A ++ Bd) 0 >? two63 - 1)%Z with true by lia.
   unfold ds. reflexivity.
 Qed.
+
+
+(* ======================= part 12 ======================= *)
+
+(* ================= segmentation independence for ALL inputs ================= *)
+Definition fits (b : bytes) : Prop := lenN b <= npos.      (* what an SBuf can hold *)
+
+Lemma fits_app_l a b : fits (a ++ b) -> fits a.
+Proof. unfold fits. rewrite lenN_app. lia. Qed.
+
+(* ---------- chunk-size, any buffer ---------- *)
+Lemma span_hex b : exists D r, b = D ++ r /\ forallb is_hex D = true /\ match r with [] => True | c :: _ => is_hex c = false end.
+Proof.
+  exists (fst (span is_hex b)), (snd (span is_hex b)). split; [symmetry; apply span_app|]. split; [apply span_all|].
+  pose proof (span_stop is_hex b) as H. destruct (snd (span is_hex b)); [exact I| exact H].
+Qed.
+
+Definition hexmap (D : bytes) : list Z := map (fun c => match hexval c with Some d => Z.of_N d | None => 0%Z end) D.
+
+Definition pre0x (b : bytes) : bool :=
+  match b with z :: x :: _ => (z =? 48) && tolower_is_x x | _ => false end.
+Definition z0x (b : bytes) : bool := fst (tok_skip [48; 120] b) || fst (tok_skip [48; 88] b).
+
+Lemma z0x_pre b : z0x b = pre0x b.
+Proof.
+  destruct b as [|z [|y b']]; unfold z0x, tok_skip; cbn [starts_with pre0x].
+  - reflexivity.
+  - rewrite !andb_false_r. reflexivity.
+  - assert (Hsw : starts_with b' [] = true) by (destruct b'; reflexivity). rewrite Hsw, !andb_true_r.
+    unfold tolower_is_x. destruct (z =? 48); cbn [andb]; [|reflexivity].
+    destruct (y =? 120); cbn; [reflexivity|]. destruct (y =? 88); reflexivity.
+Qed.
+
+Lemma chunk_size_norm st D r : forallb is_hex D = true -> match r with [] => True | c :: _ => is_hex c = false end ->
+  fits (D ++ r) -> pre0x (D ++ r) = false ->
+  chunk_size st (D ++ r) =
+  match D with
+  | [] => if is_nil r then Ok None else Bad ESize
+  | _ => if (Z.of_N (hex_value 0 D) >? two63 - 1)%Z then Bad ESize
+         else if is_nil r then Ok None
+         else match parse_strict_bws r with
+              | Insuf => Ok None | Bad e => Bad e
+              | Ok r' => Ok (Some (size_state (hex_value 0 D), r'))
+              end
+  end.
+Proof.
+  intros HD Hr Hfit H0. unfold chunk_size. fold (z0x (D ++ r)). rewrite z0x_pre, H0.
+  rewrite (int64_hex (D ++ r) H0).
+  rewrite takeN_all by exact Hfit. unfold ref_core. rewrite (digit_run_hex D r HD Hr). fold (hexmap D).
+  destruct D as [|d0 D'].
+  - cbn [hexmap map app]. destruct r; reflexivity.
+  - pose proof (digits_value_hex (d0 :: D') 0) as Hdv. cbn [Z.of_N] in Hdv. fold (hexmap (d0 :: D')) in Hdv.
+    cbn [hexmap map]. cbn [hexmap map] in Hdv. cbv zeta. rewrite Hdv.
+    destruct (Z.of_N (hex_value 0 (d0 :: D')) >? two63 - 1)%Z eqn:Ev.
+    + assert (Hne : is_nil ((d0 :: D') ++ r) = false) by reflexivity. rewrite Hne. reflexivity.
+    + change (_ :: map _ D') with (hexmap (d0 :: D')). unfold hexmap. rewrite lenN_map, N.add_0_l.
+      rewrite dropN_app_exact. destruct r as [|c r']; cbn [is_nil negb]; [reflexivity|].
+      replace (Z.of_N (hex_value 0 (d0 :: D')) <? 0)%Z with false by lia. rewrite N2Z.id. reflexivity.
+Qed.
+
+Lemma chunk_size_0x st b : pre0x b = true -> chunk_size st b = Bad E0x.
+Proof. intros H. unfold chunk_size. fold (z0x b). now rewrite z0x_pre, H. Qed.
+
+Lemma pre0x_ext b x : (2 <= length b)%nat -> pre0x (b ++ x) = pre0x b.
+Proof. destruct b as [|z [|y b']]; cbn [length]; try lia. reflexivity. Qed.
+
+Definition cs_ext (x : bytes) (R : res (option (pstate * bytes))) : res (option (pstate * bytes)) :=
+  match R with Ok (Some (s, t)) => Ok (Some (s, t ++ x)) | _ => R end.
+
+Lemma hex_value_small d : hex_value 0 [d] < 16.
+Proof.
+  cbn [hex_value]. unfold hexval. destruct ((48 <=? d) && (d <=? 57)) eqn:E1; [lia|].
+  destruct ((97 <=? d) && (d <=? 102)) eqn:E2; [lia|]. destruct ((65 <=? d) && (d <=? 70)) eqn:E3; lia.
+Qed.
+
+Lemma chunk_size_stable st b x : fits (b ++ x) -> chunk_size st b <> Ok None ->
+  chunk_size st (b ++ x) = cs_ext x (chunk_size st b) /\
+  (forall s t, chunk_size st b = Ok (Some (s, t)) -> (length t < length b)%nat).
+Proof.
+  intros Hfit Hnn.
+  destruct (pre0x b) eqn:Hp.
+  { assert (2 <= length b)%nat by (destruct b as [|z [|y b']]; cbn in *; try discriminate; lia).
+    rewrite (chunk_size_0x st b Hp) in *. rewrite chunk_size_0x by (rewrite pre0x_ext; assumption).
+    split; [reflexivity|]. intros; discriminate. }
+  destruct (span_hex b) as (D & r & Hb & HD & Hr).
+  pose proof (fits_app_l _ _ Hfit) as Hfb.
+  subst b. rewrite (chunk_size_norm st D r HD Hr Hfb Hp) in *.
+  destruct D as [|d0 D'].
+  - (* no digit *)
+    destruct r as [|c r']; cbn [is_nil] in *; [congruence|]. cbn [app] in *.
+    assert (Hp' : pre0x ((c :: r') ++ x) = false).
+    { cbn [app pre0x]. destruct (r' ++ x); [reflexivity|]. replace (c =? 48) with false; [reflexivity|].
+      symmetry. apply N.eqb_neq. intros ->. discriminate. }
+    pose proof (chunk_size_norm st [] ((c :: r') ++ x) eq_refl Hr Hfit Hp') as Hn. cbn [app is_nil] in Hn.
+    cbn [app]. rewrite Hn. split; [reflexivity|]. intros; discriminate.
+  - destruct (Z.of_N (hex_value 0 (d0 :: D')) >? two63 - 1)%Z eqn:Ev.
+    + (* overflow: more digits only make it larger *)
+      split; [|intros; discriminate]. cbn [cs_ext].
+      destruct (span_hex (r ++ x)) as (D2 & r2 & Hrx & HD2 & Hr2).
+      assert (Hlen2 : (2 <= length ((d0 :: D') ++ r))%nat).
+      { destruct D' as [|d1 D'']; [|cbn; lia]. pose proof (hex_value_small d0). unfold two63 in Ev. lia. }
+      assert (Heq : ((d0 :: D') ++ r) ++ x = ((d0 :: D') ++ D2) ++ r2) by (rewrite <- !app_assoc, Hrx; reflexivity).
+      assert (Hp' : pre0x (((d0 :: D') ++ D2) ++ r2) = false) by (rewrite <- Heq, pre0x_ext; assumption).
+      rewrite Heq in Hfit |- *.
+      rewrite (chunk_size_norm st ((d0 :: D') ++ D2) r2 ltac:(rewrite forallb_app, HD, HD2; reflexivity) Hr2 Hfit Hp').
+      cbn [app]. change (d0 :: D' ++ D2) with ((d0 :: D') ++ D2).
+      rewrite hex_value_app. pose proof (hex_value_ge D2 (hex_value 0 (d0 :: D'))) as Hge.
+      replace (Z.of_N (hex_value (hex_value 0 (d0 :: D')) D2) >? two63 - 1)%Z with true by lia. reflexivity.
+    + destruct r as [|c r']; cbn [is_nil] in *; [congruence|].
+      assert (Hlen2 : (2 <= length ((d0 :: D') ++ c :: r'))%nat) by (rewrite app_length; cbn; lia).
+      assert (Hp' : pre0x (((d0 :: D') ++ c :: r') ++ x) = false) by (rewrite pre0x_ext; assumption).
+      rewrite <- app_assoc in Hfit, Hp' |- *.
+      rewrite (chunk_size_norm st (d0 :: D') ((c :: r') ++ x) HD Hr Hfit Hp'). rewrite Ev. cbn [app is_nil].
+      unfold parse_strict_bws in *.
+      destruct (parse_bws_ cs_WSP (c :: r')) as [r1| |e] eqn:Eb; [| congruence | exfalso; eapply bws_not_bad; eassumption].
+      change (c :: r' ++ x) with ((c :: r') ++ x). rewrite bws_stable by congruence. rewrite Eb. cbn [ext1 cs_ext].
+      split; [reflexivity|]. intros s t H. injection H as _ <-. destruct (bws_ok_inv _ _ _ Eb) as [_ Hl].
+      cbn [length app] in *. rewrite app_length. cbn [length]. lia.
+Qed.
+
+(* ---------- chunk-ext stage: sizes of what is retained ---------- *)
+Lemma exts_len relaxed : forall n ctok, (length ctok <= n)%nat -> forall ck,
+  (forall t2, fst (exts relaxed ctok ck) = Ok t2 -> (length t2 <= length ctok)%nat) /\
+  (snd (exts relaxed ctok ck) = ck \/ (length (snd (exts relaxed ctok ck)) <= length ctok)%nat).
+Proof.
+  induction n as [|n IH]; intros ctok Hl ck.
+  - destruct ctok; [|cbn in Hl; lia]. rewrite exts_unfold. cbn. split; [intros; discriminate| left; reflexivity].
+  - rewrite (exts_unfold relaxed ctok ck). unfold parse_bws.
+    destruct (parse_bws_ (ws_chars relaxed) ctok) as [b1| |e] eqn:E1; cbn [fst snd]; try (split; [intros; discriminate| left; reflexivity]).
+    destruct (bws_ok_inv _ _ _ E1) as [Hb1 L1].
+    destruct (negb (fst (tok_skipChar 59 b1))) eqn:En; cbn [fst snd].
+    { split; [intros t2 H; injection H as <-; lia| left; reflexivity]. }
+    pose proof (skipChar_shorter 59 b1) as L2.
+    destruct (one_ext relaxed (snd (tok_skipChar 59 b1))) as [[b3| |e]|] eqn:E3; cbn [fst snd]; try (split; [intros; discriminate| left; reflexivity]).
+    apply one_ext_shorter in E3. destruct (IH b3 ltac:(lia) b3) as [H1 H2]. split.
+    + intros t2 H. apply H1 in H. lia.
+    + right. destruct H2 as [H2|H2]; [rewrite H2|]; lia.
+Qed.
+
+Lemma skipRequired_ok_len e b t : tok_skipRequired e crlf b = Ok t -> (length t < length b)%nat.
+Proof.
+  rewrite skipRequired_crlf_cases. destruct b as [|c0 [|c1 b']]; try discriminate.
+  - destruct (c0 =? 13); discriminate.
+  - destruct (c0 =? 13); [|discriminate]. destruct (c1 =? 10); [|discriminate]. intros H; injection H as <-. cbn; lia.
+Qed.
+
+Lemma meta_go_len relaxed st b s t3 b3 o : meta_suffix relaxed st b b = SGo s t3 b3 o ->
+  t3 = b3 /\ o = [] /\ s = ext_state st /\ (length t3 < length b)%nat.
+Proof.
+  rewrite meta_eq. destruct (fst (exts relaxed b b)) as [t2| |e] eqn:E2; try discriminate.
+  destruct (tok_skipRequired EExtCrlf crlf t2) as [t| |e] eqn:E3; try discriminate.
+  intros H. inversion H. subst. repeat split; try reflexivity.
+  apply skipRequired_ok_len in E3. destruct (exts_len relaxed (length b) b (le_n _) b) as [H1 _]. apply H1 in E2. lia.
+Qed.
+
+Lemma meta_ret_len relaxed st b s ck o : meta_suffix relaxed st b b = SRet s ck o -> (length ck <= length b)%nat.
+Proof.
+  intros H. assert (Hck : ck = snd (exts relaxed b b)).
+  { rewrite meta_eq in H. destruct (fst (exts relaxed b b)) as [t2| |e]; try discriminate.
+    - destruct (tok_skipRequired EExtCrlf crlf t2); try discriminate. injection H as _ <- _. reflexivity.
+    - injection H as _ <- _. reflexivity. }
+  destruct (exts_len relaxed (length b) b (le_n _) b) as [_ [H2|H2]]; rewrite Hck; [rewrite H2|]; lia.
+Qed.
+
+(* ---------- headersEnd, any buffer ---------- *)
+Lemma he_found x : forall b s e n, headers_end_loop b s e = n -> n <> 0 ->
+  headers_end_loop (b ++ x) s e = n /\ n <= e + lenN b.
+Proof.
+  induction b as [|c b IH]; intros s e n H Hn; cbn [headers_end_loop app lenN] in *; [congruence|].
+  set (s' := if s =? 0 then if c =? 10 then 1 else 0 else if s =? 1 then if c =? 13 then 2 else if c =? 10 then 3 else 0 else if c =? 10 then 3 else 0) in *.
+  destruct (s' =? 3); [split; [exact H| lia]|].
+  destruct (IH s' (N.succ e) n H Hn) as [H1 H2]. split; [exact H1| lia].
+Qed.
+
+Lemma he_later x : forall b s e, headers_end_loop b s e = 0 ->
+  headers_end_loop (b ++ x) s e = 0 \/ e + lenN b < headers_end_loop (b ++ x) s e.
+Proof.
+  induction b as [|c b IH]; intros s e H; cbn [app lenN].
+  - rewrite N.add_0_r. clear H. revert s e. induction x as [|c x IHx]; intros s e; cbn [headers_end_loop]; [left; reflexivity|].
+    set (s' := if s =? 0 then _ else _). destruct (s' =? 3); [right; lia|].
+    destruct (IHx s' (N.succ e)) as [H|H]; [left; exact H| right; lia].
+  - cbn [headers_end_loop] in *.
+    set (s' := if s =? 0 then if c =? 10 then 1 else 0 else if s =? 1 then if c =? 13 then 2 else if c =? 10 then 3 else 0 else if c =? 10 then 3 else 0) in *.
+    destruct (s' =? 3); [lia|]. destruct (IH s' (N.succ e) H) as [G|G]; [left; exact G| right; lia].
+Qed.
+
+(* ---------- one do-while iteration with the recursive call abstracted ---------- *)
+Section BodyK.
+Variable K : pstate -> bytes -> bytes -> parse_res.
+Variable relaxed : bool.
+Variable cap : N.
+Definition szK st3 tok3 buf3 out2 : parse_res :=
+  match p_stage st3 with
+  | StSz =>
+    match chunk_size st3 tok3 with
+    | Bad e => PThrow e out2
+    | Insuf => PThrow ESize out2
+    | Ok None => fin cap out2 st3 buf3
+    | Ok (Some (st4, t4)) => K st4 t4 out2
+    end
+  | _ => fin cap out2 st3 buf3
+  end.
+Definition mimeK st2 tok2 buf2 out2 : parse_res :=
+  match (match p_stage st2 with StMime => grab_mime st2 buf2 | _ => SGo st2 tok2 buf2 [] end) with
+  | SFuel => PFuel | SThrow e o => PThrow e out2 | SRet s b o => PRet false s b out2
+  | SGo st3 tok3 buf3 _ => szK st3 tok3 buf3 out2
+  end.
+Definition chunkK st1 tok1 buf1 out o1 : parse_res :=
+  match (match p_stage st1 with StChunk => chunk_body (cap - lenN (out ++ o1)) st1 tok1 buf1 | _ => SGo st1 tok1 buf1 [] end) with
+  | SFuel => PFuel | SThrow e o => PThrow e (out ++ o1 ++ o) | SRet s b o => PRet false s b (out ++ o1 ++ o)
+  | SGo st2 tok2 buf2 o2 => mimeK st2 tok2 buf2 (out ++ o1 ++ o2)
+  end.
+Definition bodyK st tok bufc out : parse_res :=
+  match (match p_stage st with StExt => meta_suffix relaxed st tok bufc | _ => SGo st tok bufc [] end) with
+  | SFuel => PFuel | SThrow e o => PThrow e (out ++ o) | SRet s b o => PRet false s b (out ++ o)
+  | SGo st1 tok1 buf1 o1 => chunkK st1 tok1 buf1 out o1
+  end.
+End BodyK.
+
+Lemma parse_loop_bodyK k relaxed cap st tok bufc out :
+  parse_loop (S k) relaxed cap st tok bufc out =
+  bodyK (fun s t o => parse_loop k relaxed cap s t t o) relaxed cap st tok bufc out.
+Proof. reflexivity. Qed.
+
+(* stage results keep tok = buf_ and never grow the buffer *)
+Lemma end_go_len st b o s t b' o' : chunk_end st b b o = SGo s t b' o' -> t = b' /\ (length t < length b)%nat /\ p_stage s = StSz.
+Proof.
+  unfold chunk_end. destruct (tok_skipRequired EDataCrlf crlf b) as [t1| |e] eqn:E; try discriminate.
+  intros H. inversion H. subst. apply skipRequired_ok_len in E. tauto.
+Qed.
+Lemma lenN_le_length {A} (a b : list A) : lenN a <= lenN b -> (length a <= length b)%nat.
+Proof. rewrite !lenN_length. lia. Qed.
+Lemma dropN_len {A} n (l : list A) : (length (dropN n l) <= length l)%nat.
+Proof. apply lenN_le_length. rewrite lenN_dropN. lia. Qed.
+
+Lemma body_go_len c st tok s t b o : chunk_body c st tok tok = SGo s t b o -> t = b /\ (length t <= length tok)%nat.
+Proof.
+  unfold chunk_body. destruct (0 <? p_left st).
+  - set (n := N.min (N.min (p_left st) (lenN tok)) c). cbn [p_left].
+    destruct (p_left st - n =? 0).
+    + intros H. apply end_go_len in H as (H1 & H2 & _). pose proof (dropN_len n tok). split; [exact H1| lia].
+    + intros H. inversion H. subst. split; [reflexivity| apply dropN_len].
+  - intros H. apply end_go_len in H as (H1 & H2 & _). split; [exact H1| lia].
+Qed.
+Lemma mime_go_len st b s t b' o : grab_mime st b = SGo s t b' o -> t = b' /\ (length t <= length b)%nat /\ p_stage s = StDone.
+Proof.
+  unfold grab_mime. destruct (negb (headers_end b =? 0)).
+  - destruct (trailer_limit <=? headers_end b); [discriminate|]. intros H. inversion H. subst.
+    split; [reflexivity|]. split; [apply dropN_len| reflexivity].
+  - destruct (trailer_limit <=? lenN b); discriminate.
+Qed.
+
+(* the iteration only ever recurses on a strictly shorter buffer *)
+Lemma bodyK_ext K K' relaxed cap st tok out : fits tok ->
+  (forall s t o, (length t < length tok)%nat -> K s t o = K' s t o) ->
+  bodyK K relaxed cap st tok tok out = bodyK K' relaxed cap st tok tok out.
+Proof.
+  intros Hfit HK. unfold bodyK.
+  assert (Hsz : forall st3 t3 out2, (length t3 <= length tok)%nat -> szK K cap st3 t3 t3 out2 = szK K' cap st3 t3 t3 out2).
+  { intros st3 t3 out2 Hl. unfold szK. destruct (p_stage st3); try reflexivity.
+    destruct (chunk_size st3 t3) as [[[s4 t4]|]| |e] eqn:Ec; try reflexivity.
+    apply HK. assert (Hnn : chunk_size st3 t3 <> Ok None) by congruence.
+    assert (Hf3 : fits (t3 ++ [])).
+    { rewrite app_nil_r. unfold fits in *. rewrite !lenN_length in *. lia. }
+    destruct (chunk_size_stable st3 t3 [] Hf3 Hnn) as [_ Hlt]. specialize (Hlt _ _ Ec). lia. }
+  assert (Hm : forall st2 t2 out2, (length t2 <= length tok)%nat -> mimeK K cap st2 t2 t2 out2 = mimeK K' cap st2 t2 t2 out2).
+  { intros st2 t2 out2 Hl. unfold mimeK. destruct (p_stage st2); try (apply Hsz; exact Hl).
+    destruct (grab_mime st2 t2) as [s3 t3 b3 o3| | |] eqn:Eg; try reflexivity.
+    apply mime_go_len in Eg as (-> & Hl3 & _). apply Hsz. lia. }
+  assert (Hc : forall st1 t1 o1, (length t1 <= length tok)%nat -> chunkK K cap st1 t1 t1 out o1 = chunkK K' cap st1 t1 t1 out o1).
+  { intros st1 t1 o1 Hl. unfold chunkK. destruct (p_stage st1); try (apply Hm; exact Hl).
+    destruct (chunk_body (cap - lenN (out ++ o1)) st1 t1 t1) as [s2 t2 b2 o2| | |] eqn:Eb; try reflexivity.
+    apply body_go_len in Eb as (-> & Hl2). apply Hm. lia. }
+  destruct (p_stage st); try (apply Hc; lia).
+  destruct (meta_suffix relaxed st tok tok) as [s1 t1 b1 o1| | |] eqn:Em; try reflexivity.
+  apply meta_go_len in Em as (-> & _ & _ & Hl1). apply Hc. lia.
+Qed.
+
+Lemma fits_shorter a b : fits b -> (length a <= length b)%nat -> fits a.
+Proof. unfold fits. rewrite !lenN_length. lia. Qed.
+
+Lemma PL_mono relaxed cap : forall k st tok out, fits tok -> (length tok < k)%nat ->
+  parse_loop k relaxed cap st tok tok out = parse_loop (S k) relaxed cap st tok tok out.
+Proof.
+  induction k as [|j IH]; intros st tok out Hf Hl; [lia|].
+  rewrite (parse_loop_bodyK j), (parse_loop_bodyK (S j)). apply bodyK_ext; [exact Hf|].
+  intros s t o Hlt. apply IH; [eapply fits_shorter; [exact Hf| lia] | lia].
+Qed.
+
+Lemma PL_fuel relaxed cap st tok out k k' : fits tok -> (length tok < k)%nat -> (k <= k')%nat ->
+  parse_loop k relaxed cap st tok tok out = parse_loop k' relaxed cap st tok tok out.
+Proof.
+  intros Hf Hl Hle. induction Hle as [|m Hle IH]; [reflexivity|]. rewrite IH. apply PL_mono; [exact Hf| lia].
+Qed.
+
+Definition PLf (relaxed : bool) (st : pstate) (tok out : bytes) : parse_res :=
+  parse_loop (S (length tok)) relaxed ample st tok tok out.
+
+Lemma PL_PLf relaxed st tok out k : fits tok -> (length tok < k)%nat ->
+  parse_loop k relaxed ample st tok tok out = PLf relaxed st tok out.
+Proof. intros Hf Hl. unfold PLf. symmetry. apply PL_fuel; [exact Hf| lia | lia]. Qed.
+
+Lemma PLf_unfold relaxed st tok out : fits tok ->
+  PLf relaxed st tok out = bodyK (PLf relaxed) relaxed ample st tok tok out.
+Proof.
+  intros Hf. unfold PLf at 1. rewrite parse_loop_bodyK. apply bodyK_ext; [exact Hf|].
+  intros s t o Hlt. apply PL_PLf; [eapply fits_shorter; [exact Hf| lia]| exact Hlt].
+Qed.
+
+(* ---------- the relation between a call on b and the call on b ++ x ---------- *)
+Section Ext.
+Variable relaxed : bool.
+Notation K := (PLf relaxed).
+Notation szf := (szK K ample).
+Notation mimef := (mimeK K ample).
+Notation chunkf := (chunkK K ample).
+
+Lemma PLf_chunk st t out : fits t -> p_stage st = StChunk -> PLf relaxed st t out = chunkf st t t out [].
+Proof. intros Hf Hs. rewrite PLf_unfold by exact Hf. unfold bodyK. rewrite Hs. reflexivity. Qed.
+Lemma PLf_mime st t out : fits t -> p_stage st = StMime -> PLf relaxed st t out = mimef st t t out.
+Proof.
+  intros Hf Hs. rewrite PLf_unfold by exact Hf. unfold bodyK. rewrite Hs. cbv beta iota. unfold chunkK. rewrite Hs. cbv beta iota.
+  cbn [app]. now rewrite app_nil_r.
+Qed.
+Lemma PLf_sz st t out : fits t -> p_stage st = StSz -> PLf relaxed st t out = szf st t t out.
+Proof.
+  intros Hf Hs. rewrite PLf_unfold by exact Hf. unfold bodyK. rewrite Hs. cbv beta iota. unfold chunkK. rewrite Hs. cbv beta iota.
+  unfold mimeK. rewrite Hs. cbv beta iota. cbn [app]. now rewrite app_nil_r.
+Qed.
+Lemma PLf_done st t out : fits t -> p_stage st = StDone -> PLf relaxed st t out = PRet true st t out.
+Proof.
+  intros Hf Hs. rewrite PLf_unfold by exact Hf. unfold bodyK. rewrite Hs. cbv beta iota. unfold chunkK. rewrite Hs. cbv beta iota.
+  unfold mimeK. rewrite Hs. cbv beta iota. unfold szK. rewrite Hs. unfold fin. rewrite Hs. cbn [app negb andb]. now rewrite app_nil_r.
+Qed.
+
+Definition Rel (x : bytes) (r r' : parse_res) : Prop :=
+  match r with
+  | PFuel => False
+  | PThrow e o => r' = PThrow e o
+  | PRet true s rem o => r' = PRet true s (rem ++ x) o
+  | PRet false s rem o =>
+      if is_done s then exists s' rem', r' = PRet false s' rem' o /\ is_done s' = true
+      else p_stage s <> StNone /\ lenN o + lenN (rem ++ x) <= ample /\ r' = PLf relaxed s (rem ++ x) o
+  end.
+
+Definition Main (n : nat) : Prop :=
+  forall tok, (length tok < n)%nat -> forall st out x, p_stage st <> StNone -> lenN out + lenN (tok ++ x) <= ample ->
+  Rel x (PLf relaxed st tok out) (PLf relaxed st (tok ++ x) out).
+
+Lemma ample_fits (out t : bytes) : lenN out + lenN t <= ample -> fits t.
+Proof. unfold fits, ample. lia. Qed.
+
+Lemma chunk_size_some_stage st b s t : chunk_size st b = Ok (Some (s, t)) -> p_stage s = StExt.
+Proof.
+  unfold chunk_size. destruct (_ || _); [discriminate|]. destruct (tok_int64 16 false npos b) as [[v k]|]; [|destruct (is_nil b); discriminate].
+  destruct (negb _); [|discriminate]. destruct (v <? 0)%Z; [discriminate|]. destruct (parse_strict_bws _); try discriminate.
+  intros H. injection H as <- _. reflexivity.
+Qed.
+
+Lemma sz_rel n : Main n -> forall st3 t3 out2 x, (length t3 <= n)%nat ->
+  p_stage st3 = StSz \/ p_stage st3 = StDone -> lenN out2 + lenN (t3 ++ x) <= ample ->
+  Rel x (szf st3 t3 t3 out2) (szf st3 (t3 ++ x) (t3 ++ x) out2).
+Proof.
+  intros IH st3 t3 out2 x Hl Hst Hcap. pose proof (ample_fits _ _ Hcap) as Hfx.
+  destruct Hst as [Hst|Hst]; unfold szK; rewrite Hst.
+  2:{ unfold fin. rewrite Hst. cbn [negb andb Rel]. reflexivity. }
+  destruct (chunk_size st3 t3) as [[[s4 t4]|]| |e] eqn:Ec.
+  - destruct (chunk_size_stable st3 t3 x Hfx ltac:(congruence)) as [Hs Hlt]. rewrite Ec in Hs. cbn [cs_ext] in Hs. rewrite Hs.
+    specialize (Hlt _ _ Ec). apply IH; [lia| rewrite (chunk_size_some_stage _ _ _ _ Ec); discriminate|].
+    rewrite lenN_app in *. assert (lenN t4 <= lenN t3) by (rewrite !lenN_length; lia). lia.
+  - (* need more data: the call on the longer buffer is the re-entered call *)
+    unfold fin at 1. rewrite Hst. cbn [negb andb Rel]. unfold is_done. rewrite Hst.
+    split; [congruence|]. split; [exact Hcap|]. symmetry. rewrite PLf_sz by assumption. unfold szK. rewrite Hst. reflexivity.
+  - destruct (chunk_size_stable st3 t3 x Hfx ltac:(congruence)) as [Hs _]. rewrite Ec in Hs. cbn [cs_ext] in Hs. rewrite Hs. reflexivity.
+  - destruct (chunk_size_stable st3 t3 x Hfx ltac:(congruence)) as [Hs _]. rewrite Ec in Hs. cbn [cs_ext] in Hs. rewrite Hs. reflexivity.
+Qed.
+
+Lemma mime_rel n : Main n -> forall st2 t2 out2 x, (length t2 <= n)%nat ->
+  p_stage st2 = StMime -> lenN out2 + lenN (t2 ++ x) <= ample ->
+  Rel x (mimef st2 t2 t2 out2) (mimef st2 (t2 ++ x) (t2 ++ x) out2).
+Proof.
+  intros IH st2 t2 out2 x Hl Hst Hcap. pose proof (ample_fits _ _ Hcap) as Hfx.
+  unfold mimeK. rewrite Hst. unfold grab_mime.
+  set (done := {| p_stage := StDone; p_size := p_size st2; p_left := p_left st2 |}).
+  destruct (headers_end t2 =? 0) eqn:En; cbn [negb].
+  - apply N.eqb_eq in En.
+    destruct (trailer_limit <=? lenN t2) eqn:El.
+    + (* over the limit without an end: terminal *)
+      cbn [Rel is_done p_stage done]. unfold is_done at 1. cbn [p_stage done].
+      unfold headers_end in *. destruct (he_later x t2 1 0 En) as [H0|Hgt].
+      * rewrite H0. cbn [N.eqb negb]. replace (trailer_limit <=? lenN (t2 ++ x)) with true by (rewrite lenN_app; lia).
+        eexists _, _. split; reflexivity.
+      * destruct (headers_end_loop (t2 ++ x) 1 0 =? 0) eqn:E0; [apply N.eqb_eq in E0; lia|]. cbn [negb].
+        replace (trailer_limit <=? headers_end_loop (t2 ++ x) 1 0) with true by lia.
+        eexists _, _. split; reflexivity.
+    + (* waiting for the end of the trailer: the longer call is the re-entered call *)
+      cbn [Rel]. unfold is_done. rewrite Hst. split; [congruence|]. split; [exact Hcap|].
+      symmetry. rewrite PLf_mime by assumption. unfold mimeK. rewrite Hst. reflexivity.
+  - apply N.eqb_neq in En. unfold headers_end in *.
+    destruct (he_found x t2 1 0 _ eq_refl En) as [Hsame Hle]. rewrite Hsame.
+    destruct (headers_end_loop t2 1 0 =? 0) eqn:E0; [apply N.eqb_eq in E0; congruence|]. cbn [negb].
+    destruct (trailer_limit <=? headers_end_loop t2 1 0).
+    + cbn [Rel]. unfold is_done at 1. cbn [p_stage done]. eexists _, _. split; reflexivity.
+    + unfold szK. cbn [p_stage done]. unfold fin. cbn [p_stage done negb andb Rel].
+      rewrite dropN_app_le by lia. reflexivity.
+Qed.
+
+Definition shift (p : bytes) (r : step_res) : step_res :=
+  match r with SGo s t b o => SGo s t b (p ++ o) | SRet s b o => SRet s b (p ++ o) | SThrow e o => SThrow e (p ++ o) | SFuel => SFuel end.
+Lemma end_shift st b b' p o : chunk_end st b b' (p ++ o) = shift p (chunk_end st b b' o).
+Proof. unfold chunk_end. destruct (tok_skipRequired EDataCrlf crlf b); reflexivity. Qed.
+
+Definition contK (out : bytes) (r : step_res) : parse_res :=
+  match r with
+  | SFuel => PFuel | SThrow e o => PThrow e (out ++ [] ++ o) | SRet s b o => PRet false s b (out ++ [] ++ o)
+  | SGo s t b o2 => mimef s t b (out ++ [] ++ o2)
+  end.
+Lemma contK_shift out p r : contK out (shift p r) = contK (out ++ p) r.
+Proof. destruct r; cbn [shift contK app]; rewrite ?app_assoc; reflexivity. Qed.
+
+Lemma chunkf_cont st t out : p_stage st = StChunk ->
+  chunkf st t t out [] = contK out (chunk_body (ample - lenN (out ++ [])) st t t).
+Proof. intros Hs. unfold chunkK. rewrite Hs. reflexivity. Qed.
+
+Lemma body_norm c st t : lenN t <= c -> chunk_body c st t t =
+  if 0 <? p_left st then
+    let n := N.min (p_left st) (lenN t) in
+    let st' := {| p_stage := p_stage st; p_size := p_size st; p_left := p_left st - n |} in
+    if p_left st - n =? 0 then chunk_end st' (dropN n t) (dropN n t) (takeN n t)
+    else SGo st' (dropN n t) (dropN n t) (takeN n t)
+  else chunk_end st t t [].
+Proof.
+  intros Hc. unfold chunk_body. destruct (0 <? p_left st); [|reflexivity].
+  replace (N.min (N.min (p_left st) (lenN t)) c) with (N.min (p_left st) (lenN t)) by lia. reflexivity.
+Qed.
+
+Lemma mimef_sz s t out : p_stage s = StSz -> mimef s t t out = szf s t t out.
+Proof. intros Hs. unfold mimeK. rewrite Hs. reflexivity. Qed.
+
+(* parseChunkEnd on b and on b ++ x, from a state that re-enters at parseChunkEnd *)
+Lemma end_rel n : Main n -> forall st' b out o x, (length b <= n)%nat ->
+  p_stage st' = StChunk -> p_left st' = 0 -> lenN (out ++ o) + lenN (b ++ x) <= ample ->
+  Rel x (contK out (chunk_end st' b b o)) (contK out (chunk_end st' (b ++ x) (b ++ x) o)).
+Proof.
+  intros IH st' b out o x Hl Hst Hleft Hcap. pose proof (ample_fits _ _ Hcap) as Hfx.
+  unfold chunk_end at 1.
+  destruct (tok_skipRequired EDataCrlf crlf b) as [t| |e] eqn:Es.
+  - unfold chunk_end. rewrite skipRequired_stable by congruence. rewrite Es. cbn [ext1 contK app].
+    rewrite !mimef_sz by reflexivity. pose proof (skipRequired_ok_len _ _ _ Es) as Hlt.
+    apply (sz_rel n IH); [lia| left; reflexivity|].
+    rewrite !lenN_app in *. assert (lenN t <= lenN b) by (rewrite !lenN_length; lia). lia.
+  - cbn [contK app Rel]. unfold is_done. rewrite Hst. split; [congruence|]. split; [exact Hcap|].
+    rewrite PLf_chunk by assumption. rewrite chunkf_cont by exact Hst.
+    rewrite body_norm by (cbn [app]; rewrite app_nil_r; lia).
+    rewrite Hleft. change (0 <? 0) with false. cbv iota.
+    rewrite <- (app_nil_r o) at 1. rewrite end_shift, contK_shift. reflexivity.
+  - unfold chunk_end. rewrite skipRequired_stable by congruence. rewrite Es. reflexivity.
+Qed.
+
+Lemma takeN_app_plus {A} (a b : list A) n : takeN (lenN a + n) (a ++ b) = a ++ takeN n b.
+Proof. rewrite takeN_app_ge by lia. f_equal. f_equal. lia. Qed.
+Lemma dropN_app_plus {A} (a b : list A) n : dropN (lenN a + n) (a ++ b) = dropN n b.
+Proof.
+  induction a as [|c a IH]; cbn [lenN app dropN]; [now rewrite N.add_0_l|].
+  destruct (N.succ (lenN a) + n =? 0) eqn:E; [apply N.eqb_eq in E; lia|].
+  replace (N.pred (N.succ (lenN a) + n)) with (lenN a + n) by lia. exact IH.
+Qed.
+
+Lemma chunk_rel n : Main n -> forall st1 t1 out x, (length t1 <= n)%nat ->
+  p_stage st1 = StChunk -> lenN out + lenN (t1 ++ x) <= ample ->
+  Rel x (chunkf st1 t1 t1 out []) (chunkf st1 (t1 ++ x) (t1 ++ x) out []).
+Proof.
+  intros IH st1 t1 out x Hl Hst Hcap. pose proof (ample_fits _ _ Hcap) as Hfx.
+  assert (Hc1 : lenN t1 <= ample - lenN (out ++ [])) by (rewrite app_nil_r; rewrite lenN_app in Hcap; lia).
+  assert (Hc2 : lenN (t1 ++ x) <= ample - lenN (out ++ [])) by (rewrite app_nil_r; lia).
+  rewrite !chunkf_cont by exact Hst. rewrite (body_norm _ st1 t1 Hc1), (body_norm _ st1 (t1 ++ x) Hc2).
+  set (L := p_left st1) in *.
+  destruct (0 <? L) eqn:Epos.
+  2:{ apply (end_rel n IH); [exact Hl| exact Hst| fold L; lia | rewrite app_nil_r; exact Hcap]. }
+  cbv zeta.
+  destruct (N.le_gt_cases L (lenN t1)) as [Hle|Hgt].
+  - (* all chunk data is in the shorter buffer already *)
+    replace (N.min L (lenN t1)) with L by lia. replace (N.min L (lenN (t1 ++ x))) with L by (rewrite lenN_app; lia).
+    rewrite N.sub_diag. change (0 =? 0) with true. cbv iota.
+    rewrite (takeN_app_le L t1 x Hle), (dropN_app_le L t1 x Hle).
+    apply (end_rel n IH); [pose proof (dropN_len L t1); lia | exact Hst | reflexivity |].
+    pose proof (takeN_dropN L t1) as Hsp. rewrite !lenN_app in *.
+    assert (lenN t1 = lenN (takeN L t1) + lenN (dropN L t1)) by (rewrite <- lenN_app, Hsp; reflexivity). lia.
+  - (* data continues beyond the shorter buffer *)
+    replace (N.min L (lenN t1)) with (lenN t1) by lia.
+    destruct (L - lenN t1 =? 0) eqn:Ez; [apply N.eqb_eq in Ez; lia|].
+    rewrite takeN_all by lia. rewrite dropN_all by lia.
+    set (st' := {| p_stage := p_stage st1; p_size := p_size st1; p_left := L - lenN t1 |}).
+    assert (Hst' : p_stage st' = StChunk) by exact Hst.
+    cbn [contK app]. unfold mimeK. rewrite Hst'. unfold szK. rewrite Hst'. unfold fin. rewrite Hst'. cbn [negb andb Rel].
+    unfold is_done. rewrite Hst'. split; [congruence|]. split; [rewrite !lenN_app in *; cbn [lenN]; lia|].
+    cbn [app]. assert (Hfxx : fits x) by (eapply fits_shorter; [exact Hfx| rewrite app_length; lia]).
+    rewrite PLf_chunk by assumption.
+    rewrite chunkf_cont by exact Hst'.
+    rewrite body_norm by (rewrite app_nil_r; rewrite !lenN_app in *; lia).
+    cbn [p_left st' p_stage p_size]. replace (0 <? L - lenN t1) with true by lia. cbv zeta.
+    set (n' := N.min (L - lenN t1) (lenN x)).
+    replace (N.min L (lenN (t1 ++ x))) with (lenN t1 + n') by (unfold n'; rewrite lenN_app; lia).
+    rewrite takeN_app_plus, dropN_app_plus. replace (L - (lenN t1 + n')) with (L - lenN t1 - n') by lia.
+    rewrite <- contK_shift. f_equal.
+    destruct (L - lenN t1 - n' =? 0); [|reflexivity]. rewrite <- end_shift. reflexivity.
+Qed.
+
+Lemma chunkf_mime s t out : p_stage s = StMime -> chunkf s t t out [] = mimef s t t out.
+Proof. intros Hs. unfold chunkK. rewrite Hs. cbn [app]. now rewrite app_nil_r. Qed.
+
+Lemma top_rel n : Main n -> forall tok, (length tok <= n)%nat -> forall st out x,
+  p_stage st <> StNone -> lenN out + lenN (tok ++ x) <= ample ->
+  Rel x (PLf relaxed st tok out) (PLf relaxed st (tok ++ x) out).
+Proof.
+  intros IH tok Hl st out x Hn Hcap. pose proof (ample_fits _ _ Hcap) as Hfx.
+  assert (Hf : fits tok) by (eapply fits_shorter; [exact Hfx| rewrite app_length; lia]).
+  destruct (p_stage st) eqn:Hst; try congruence.
+  - rewrite !PLf_sz by assumption. apply (sz_rel n IH); [exact Hl| left; exact Hst| exact Hcap].
+  - (* StExt *)
+    rewrite (PLf_unfold relaxed st tok out Hf), (PLf_unfold relaxed st (tok ++ x) out Hfx). unfold bodyK. rewrite Hst.
+    destruct (meta_suffix relaxed st tok tok) as [s1 t1 b1 o1|s ck o|e o|] eqn:Em.
+    + destruct (meta_go_len _ _ _ _ _ _ _ Em) as (<- & -> & -> & Hlt).
+      rewrite (meta_stable_go _ _ _ x _ _ _ Em).
+      assert (Hcap1 : lenN out + lenN (t1 ++ x) <= ample).
+      { rewrite !lenN_app in *. assert (lenN t1 <= lenN tok) by (rewrite !lenN_length; lia). lia. }
+      destruct (p_size st =? 0) eqn:Ez.
+      * assert (Hs1 : p_stage (ext_state st) = StMime) by (cbn [ext_state p_stage]; now rewrite Ez).
+        rewrite !chunkf_mime by exact Hs1. apply (mime_rel n IH); [lia| exact Hs1| exact Hcap1].
+      * assert (Hs1 : p_stage (ext_state st) = StChunk) by (cbn [ext_state p_stage]; now rewrite Ez).
+        apply (chunk_rel n IH); [lia| exact Hs1| exact Hcap1].
+    + destruct (meta_ret_state _ _ _ _ _ _ Em) as [-> ->]. pose proof (meta_ret_len _ _ _ _ _ _ Em) as Hlc.
+      rewrite app_nil_r. cbn [Rel]. unfold is_done. rewrite Hst. split; [congruence|]. split.
+      { rewrite !lenN_app in *. assert (lenN ck <= lenN tok) by (rewrite !lenN_length; lia). lia. }
+      rewrite (meta_commute _ _ _ _ _ _ x Em).
+      assert (Hfc : fits (ck ++ x)).
+      { unfold fits in *. rewrite !lenN_app in *. assert (lenN ck <= lenN tok) by (rewrite !lenN_length; lia). lia. }
+      rewrite (PLf_unfold relaxed st (ck ++ x) out Hfc). unfold bodyK. rewrite Hst. reflexivity.
+    + rewrite (meta_stable_throw _ _ _ x _ _ Em). reflexivity.
+    + exfalso. eapply meta_not_fuel; eassumption.
+  - rewrite !PLf_chunk by assumption. apply (chunk_rel n IH); [exact Hl| exact Hst| exact Hcap].
+  - rewrite !PLf_mime by assumption. apply (mime_rel n IH); [exact Hl| exact Hst| exact Hcap].
+  - rewrite !PLf_done by assumption. reflexivity.
+Qed.
+
+Theorem Main_all : forall n, Main n.
+Proof.
+  induction n as [|n IH]; intros tok Hl; [lia|]. apply (top_rel n IH). lia.
+Qed.
+End Ext.
+
+(* ---------- output already produced in this call is only ever extended ---------- *)
+Definition prepend (p : bytes) (r : parse_res) : parse_res :=
+  match r with PRet b s rem o => PRet b s rem (p ++ o) | PThrow e o => PThrow e (p ++ o) | PFuel => PFuel end.
+
+Lemma fin_eq cap out s b : fin cap out s b = PRet (is_done s) s b out.
+Proof. unfold fin, is_done. destruct (p_stage s); reflexivity. Qed.
+
+Section Pref.
+Variable relaxed : bool.
+Notation K := (PLf relaxed).
+
+Definition PrefN (n : nat) : Prop :=
+  forall t, (length t < n)%nat -> forall st p out, lenN (p ++ out) + lenN t <= ample ->
+  PLf relaxed st t (p ++ out) = prepend p (PLf relaxed st t out).
+
+Lemma body_go_out c st tok s t b o : chunk_body c st tok tok = SGo s t b o -> lenN o + lenN t <= lenN tok.
+Proof.
+  unfold chunk_body. destruct (0 <? p_left st).
+  - set (n := N.min (N.min (p_left st) (lenN tok)) c). cbn [p_left].
+    pose proof (takeN_dropN n tok) as Hsp. pose proof (lenN_takeN n tok) as Ht. pose proof (lenN_dropN n tok) as Hd.
+    destruct (p_left st - n =? 0).
+    + unfold chunk_end. destruct (tok_skipRequired EDataCrlf crlf (dropN n tok)) as [t1| |e] eqn:E; try discriminate.
+      intros H. inversion H. subst. apply skipRequired_ok_len in E. rewrite !lenN_length in *. lia.
+    + intros H. inversion H. subst. lia.
+  - unfold chunk_end. destruct (tok_skipRequired EDataCrlf crlf tok) as [t1| |e] eqn:E; try discriminate.
+    intros H. inversion H. subst. apply skipRequired_ok_len in E. cbn [lenN]. rewrite !lenN_length. lia.
+Qed.
+
+Lemma pref_step n : PrefN n -> forall t, (length t <= n)%nat -> forall st p out, lenN (p ++ out) + lenN t <= ample ->
+  PLf relaxed st t (p ++ out) = prepend p (PLf relaxed st t out).
+Proof.
+  intros IH t Hl st p out Hcap. pose proof (ample_fits _ _ Hcap) as Hf.
+  assert (Hsz : forall st3 t3 out2, (length t3 <= length t)%nat -> lenN (p ++ out2) + lenN t3 <= ample ->
+            szK K ample st3 t3 t3 (p ++ out2) = prepend p (szK K ample st3 t3 t3 out2)).
+  { intros st3 t3 out2 Hl3 Hc3. unfold szK. rewrite !fin_eq. destruct (p_stage st3); try reflexivity.
+    destruct (chunk_size st3 t3) as [[[s4 t4]|]| |e] eqn:Ec; try reflexivity.
+    assert (Hf3 : fits (t3 ++ [])) by (rewrite app_nil_r; eapply fits_shorter; [exact Hf| exact Hl3]).
+    destruct (chunk_size_stable st3 t3 [] Hf3 ltac:(congruence)) as [_ Hlt]. specialize (Hlt _ _ Ec).
+    apply IH; [lia|]. assert (lenN t4 <= lenN t3) by (rewrite !lenN_length; lia). lia. }
+  assert (Hm : forall st2 t2 out2, (length t2 <= length t)%nat -> lenN (p ++ out2) + lenN t2 <= ample ->
+            mimeK K ample st2 t2 t2 (p ++ out2) = prepend p (mimeK K ample st2 t2 t2 out2)).
+  { intros st2 t2 out2 Hl2 Hc2. unfold mimeK. destruct (p_stage st2); try (apply Hsz; assumption).
+    destruct (grab_mime st2 t2) as [s3 t3 b3 o3| | |] eqn:Eg; try reflexivity.
+    apply mime_go_len in Eg as (-> & Hl3 & _). apply Hsz; [lia|]. assert (lenN b3 <= lenN t2) by (rewrite !lenN_length; lia). lia. }
+  assert (Hc : forall st1 t1, (length t1 <= length t)%nat -> lenN (p ++ out) + lenN t1 <= ample ->
+            chunkK K ample st1 t1 t1 (p ++ out) [] = prepend p (chunkK K ample st1 t1 t1 out [])).
+  { intros st1 t1 Hl1 Hc1. unfold chunkK. destruct (p_stage st1) eqn:Hs1;
+      try (cbn [app]; rewrite !app_nil_r; apply Hm; assumption).
+    rewrite !app_nil_r.
+    rewrite (body_norm (ample - lenN (p ++ out)) st1 t1) by lia.
+    rewrite (body_norm (ample - lenN out) st1 t1) by (rewrite lenN_app in Hc1; lia).
+    rewrite <- (body_norm (lenN t1) st1 t1) by lia.
+    destruct (chunk_body (lenN t1) st1 t1 t1) as [s2 t2 b2 o2| | |] eqn:Eb; cbn [app prepend]; try (rewrite <- ?app_assoc; reflexivity).
+    pose proof (body_go_out _ _ _ _ _ _ _ Eb) as Ho. apply body_go_len in Eb as (-> & Hl2).
+    rewrite <- app_assoc. apply Hm; [lia|]. rewrite !lenN_app in *. lia. }
+  rewrite (PLf_unfold relaxed st t (p ++ out) Hf), (PLf_unfold relaxed st t out Hf). unfold bodyK.
+  destruct (p_stage st); try (apply Hc; [lia| exact Hcap]).
+  destruct (meta_suffix relaxed st t t) as [s1 t1 b1 o1|s ck o|e o|] eqn:Em; cbn [prepend]; try (rewrite <- ?app_assoc; reflexivity).
+  destruct (meta_go_len _ _ _ _ _ _ _ Em) as (<- & -> & _ & Hlt).
+  apply Hc; [lia|]. assert (lenN t1 <= lenN t) by (rewrite !lenN_length; lia). lia.
+Qed.
+
+Theorem pref_all : forall n, PrefN n.
+Proof. induction n as [|n IH]; intros t Hl; [lia|]. apply (pref_step n IH). lia. Qed.
+End Pref.
+
+(* ---------- one parse() call as the caller sees it (ChunkedModel.step) ---------- *)
+Definition cls (acc : bytes) (r : parse_res) : dres :=
+  match r with
+  | PRet true _ rem o => Incremental.Done (acc ++ o) rem
+  | PRet false st' rem o =>
+      match p_stage st' with
+      | StDone => Incremental.Bad (BTooBig (acc ++ o))
+      | _ => Incremental.More {| d_p := st'; d_out := acc ++ o |} rem
+      end
+  | PThrow e o => Incremental.Bad (BThrow e (acc ++ o))
+  | PFuel => Incremental.Bad BFuel
+  end.
+Lemma step_cls relaxed s b : step relaxed s b = cls (d_out s) (parse relaxed ample (d_p s) b).
+Proof. reflexivity. Qed.
+Lemma cls_prepend acc p r : cls acc (prepend p r) = cls (acc ++ p) r.
+Proof. destruct r as [[|] s rem o|e o|]; cbn [prepend cls]; rewrite ?app_assoc; reflexivity. Qed.
+
+Lemma parse_PLf relaxed st c b : parse relaxed ample st (c :: b) = PLf relaxed (norm_state st) (c :: b) [].
+Proof. reflexivity. Qed.
+
+Definition dinv (s : dstate) : Prop := p_stage (d_p s) <> StDone.
+
+Lemma norm_not_none st : p_stage (norm_state st) <> StNone.
+Proof. unfold norm_state. destruct (p_stage st) eqn:E; cbn [p_stage]; congruence. Qed.
+
+Lemma step_rel relaxed s c b x : fits ((c :: b) ++ x) ->
+  Rel relaxed x (PLf relaxed (norm_state (d_p s)) (c :: b) []) (PLf relaxed (norm_state (d_p s)) ((c :: b) ++ x) []).
+Proof.
+  intros Hf. apply (Main_all relaxed (S (length (c :: b)))); [lia| apply norm_not_none|]. cbn [lenN]. unfold fits, ample in *. lia.
+Qed.
+
+Theorem step_stable_done relaxed : stable_done dstate bytes dbad (step relaxed) dinv fits.
+Proof.
+  intros s b r rest x Hi Hg H. rewrite step_cls in *.
+  destruct b as [|c b].
+  { cbn [parse cls] in H. unfold dinv in Hi. destruct (p_stage (d_p s)); congruence. }
+  pose proof (step_rel relaxed s c b x Hg) as HR. cbn [app] in *. rewrite parse_PLf in *.
+  destruct (PLf relaxed (norm_state (d_p s)) (c :: b) []) as [[|] st' rem o|e o|]; cbn [cls Rel] in *.
+  - rewrite HR. cbn [cls]. injection H as <- <-. reflexivity.
+  - destruct (p_stage st'); discriminate.
+  - discriminate.
+  - destruct HR.
+Qed.
+
+Theorem step_stable_bad relaxed : stable_bad dstate bytes dbad (step relaxed) dinv fits.
+Proof.
+  intros s b e x Hi Hg H. rewrite step_cls in *.
+  destruct b as [|c b].
+  { cbn [parse cls] in H. unfold dinv in Hi. destruct (p_stage (d_p s)); congruence. }
+  pose proof (step_rel relaxed s c b x Hg) as HR. cbn [app] in *. rewrite parse_PLf in *.
+  destruct (PLf relaxed (norm_state (d_p s)) (c :: b) []) as [[|] st' rem o|e' o|]; cbn [cls Rel] in *.
+  - discriminate.
+  - unfold is_done in HR. destruct (p_stage st') eqn:Es; try discriminate.
+    destruct HR as (s' & rem' & -> & Hd). cbn [cls]. unfold is_done in Hd. destruct (p_stage s'); try discriminate. exact H.
+  - rewrite HR. exact H.
+  - destruct HR.
+Qed.
+
+Theorem step_checkpoint relaxed : checkpoint_commutes dstate bytes dbad (step relaxed) dinv fits.
+Proof.
+  intros s b s' keep x Hi Hg H. rewrite step_cls in H.
+  destruct b as [|c b].
+  { (* nothing to parse: same state, nothing retained *)
+    cbn [parse cls] in H. unfold dinv in Hi.
+    assert (Hs : s' = s /\ keep = []).
+    { destruct s as [sp so]. cbn [d_p d_out] in *. destruct (p_stage sp); try congruence; injection H as <- <-; rewrite app_nil_r; tauto. }
+    destruct Hs as [-> ->]. cbn [app]. split; [reflexivity|]. split; [exact Hi| exact Hg]. }
+  pose proof (step_rel relaxed s c b x Hg) as HR. rewrite parse_PLf in H.
+  rewrite (step_cls relaxed s ((c :: b) ++ x)). cbn [app]. rewrite parse_PLf. cbn [app] in HR.
+  destruct (PLf relaxed (norm_state (d_p s)) (c :: b) []) as [[|] st' rem o|e' o|]; cbn [cls] in H; try discriminate.
+  cbn [Rel] in HR. unfold is_done in HR.
+  assert (Hnd : p_stage st' <> StDone) by (destruct (p_stage st'); congruence).
+  assert (Hm : s' = {| d_p := st'; d_out := d_out s ++ o |} /\ keep = rem).
+  { destruct (p_stage st'); try congruence; injection H as <- <-; tauto. }
+  destruct Hm as [-> ->].
+  assert (HR' : p_stage st' <> StNone /\ lenN o + lenN (rem ++ x) <= ample /\
+                PLf relaxed (norm_state (d_p s)) (c :: b ++ x) [] = PLf relaxed st' (rem ++ x) o).
+  { destruct (p_stage st'); try congruence; exact HR. }
+  destruct HR' as (Hnn & Hcap & Heq). rewrite Heq.
+  split; [|split; [exact Hnd| unfold fits, ample in *; lia]].
+  rewrite step_cls. cbn [d_p d_out].
+  destruct (rem ++ x) as [|c2 r2] eqn:Erx.
+  - (* nothing retained and nothing new: the state just sits there *)
+    cbn [parse cls].
+    assert (Hp : PLf relaxed st' [] o = PRet false st' [] o).
+    { clear -Hnn Hnd. assert (Hf : fits []) by (unfold fits; cbn; lia).
+      destruct (p_stage st') eqn:Es; try congruence.
+      - rewrite PLf_sz by assumption. unfold szK. rewrite Es. cbn. rewrite fin_eq. unfold is_done. now rewrite Es.
+      - rewrite PLf_unfold by assumption. unfold bodyK. rewrite Es. rewrite meta_eq. rewrite exts_unfold. cbn. now rewrite app_nil_r.
+      - rewrite PLf_chunk by assumption. rewrite chunkf_cont by assumption.
+        rewrite body_norm by (cbn; lia). cbn [lenN]. rewrite N.min_0_r, N.sub_0_r.
+        destruct (0 <? p_left st') eqn:Ep.
+        + cbv zeta. destruct (p_left st' =? 0) eqn:E0; [apply N.eqb_eq in E0; lia|].
+          cbn [dropN takeN contK app]. unfold mimeK. cbn [p_stage]. rewrite Es. unfold szK. cbn [p_stage].
+          rewrite fin_eq. unfold is_done. cbn [p_stage]. rewrite app_nil_r. destruct st'; cbn in *; subst; reflexivity.
+        + unfold chunk_end. rewrite skipRequired_crlf_cases. cbn [contK app]. now rewrite app_nil_r.
+      - rewrite PLf_mime by assumption. unfold mimeK. rewrite Es. cbn. reflexivity. }
+    rewrite Hp. cbn [cls]. destruct (p_stage st'); try congruence; rewrite app_nil_r; reflexivity.
+  - rewrite parse_PLf. assert (Hn : norm_state st' = st') by (unfold norm_state; destruct (p_stage st'); congruence).
+    rewrite Hn. rewrite <- (app_nil_r o) at 1.
+    rewrite (pref_all relaxed (S (length (c2 :: r2))) (c2 :: r2) ltac:(lia) st' o []) by (rewrite app_nil_r; exact Hcap).
+    rewrite cls_prepend. reflexivity.
+Qed.
+
+(* ---------- C24 segmentation independence (instance of Incremental.drive_oneshot) ---------- *)
+Lemma dinv0 : dinv dstate0. Proof. unfold dinv, dstate0, init_state. cbn. discriminate. Qed.
+
+Theorem decode_from_checkpoint relaxed s keep segments :
+  segments <> [] -> dinv s -> fits (keep ++ concat segments) ->
+  Incremental.drive dstate bytes dbad (step relaxed) s keep segments = step relaxed s (keep ++ concat segments).
+Proof.
+  intros Hne Hi Hf.
+  apply (drive_oneshot dstate bytes dbad (step relaxed) dinv fits
+           (step_stable_done relaxed) (step_stable_bad relaxed) (step_checkpoint relaxed)); assumption.
+Qed.
+
+Theorem decode_segmentation_independent relaxed segments :
+  segments <> [] -> lenN (concat segments) <= npos ->
+  decode_segments relaxed segments = decode_whole relaxed (concat segments).
+Proof. intros Hne Hf. apply (decode_from_checkpoint relaxed dstate0 [] segments Hne dinv0). exact Hf. Qed.
+
+Theorem decode_two_segmentations relaxed segs1 segs2 :
+  segs1 <> [] -> segs2 <> [] -> concat segs1 = concat segs2 -> lenN (concat segs1) <= npos ->
+  decode_segments relaxed segs1 = decode_segments relaxed segs2.
+Proof.
+  intros H1 H2 Hc Hf. rewrite !decode_segmentation_independent by (try assumption; rewrite <- Hc; assumption). now rewrite Hc.
+Qed.
+
+(* ---------- BWS between a chunk extension and CRLF: rejected, for every segmentation ---------- *)
+Lemma nxt_exts_tail es w x : Forall ext_ok es -> bws_ok w -> nxt (enc_exts es ++ w ++ 13 :: 10 :: x).
+Proof.
+  intros H Hw. destruct H as [|e es He Hes]; unfold enc_exts; cbn [map concat app].
+  - exists w, 13, (10 :: x). split; [reflexivity|]. split; [exact Hw|]. right. eauto.
+  - exists (x_w1 e), 59, ((x_w2 e ++ x_name e ++ enc_val (x_val e)) ++ concat (map enc_ext es) ++ w ++ 13 :: 10 :: x).
+    split; [unfold enc_ext; rewrite <- !app_assoc; reflexivity|]. split; [apply He|]. left; reflexivity.
+Qed.
+
+Lemma exts_valid_tail relaxed w x : bws_ok w -> forall es ck, Forall ext_ok es ->
+  fst (exts relaxed (enc_exts es ++ w ++ 13 :: 10 :: x) ck) = Ok (w ++ 13 :: 10 :: x).
+Proof.
+  intros Hw. destruct (ws_facts relaxed) as (F59 & F61 & F34 & F10 & F13).
+  induction es as [|e es IH]; intros ck Hes.
+  - unfold enc_exts. cbn [map concat app]. rewrite exts_unfold.
+    destruct (nxt_bws relaxed _ (nxt_exts_tail [] w x (Forall_nil _) Hw)) as (z & rz & Hb & Hz61 & [[Hz (w' & HZw & Hw')]|[Hz _]]).
+    + exfalso. subst z. unfold enc_exts in HZw. cbn [map concat app] in HZw.
+      revert w' HZw Hw'. clear -Hw. induction w as [|c w IH]; intros w' HZw Hw'.
+      * destruct w' as [|c' w'']; cbn [app] in HZw; [discriminate|]. injection HZw as <- _.
+        unfold bws_ok in Hw'. cbn [forallb] in Hw'. discriminate.
+      * destruct w' as [|c' w'']; cbn [app] in HZw.
+        -- injection HZw as -> _. unfold bws_ok in Hw. cbn [forallb] in Hw. discriminate.
+        -- injection HZw as <- HZw. unfold bws_ok in Hw, Hw'. cbn [forallb] in Hw, Hw'.
+           apply andb_prop in Hw as [_ Hw]. apply andb_prop in Hw' as [_ Hw']. eapply IH; eassumption.
+    + unfold enc_exts in Hb. cbn [map concat app] in Hb. rewrite Hb. cbn [tok_skipChar]. replace (z =? 59) with false by lia. reflexivity.
+  - inversion Hes as [|? ? He Hes']; subst. rewrite enc_exts_cons.
+    rewrite exts_unfold. unfold parse_bws.
+    rewrite (bws_run _ (x_w1 e) 59 _ (bws_ws relaxed _ (proj1 He)) F59).
+    cbn [tok_skipChar]. change (59 =? 59) with true. cbn [negb fst snd].
+    rewrite (one_ext_valid relaxed e (enc_exts es ++ w ++ 13 :: 10 :: x) He (nxt_exts_tail es w x Hes' Hw)).
+    apply IH. exact Hes'.
+Qed.
+
+Theorem reject_ext_trailing_bws relaxed cap ds v e es w x :
+  digits_ok ds v -> Forall ext_ok (e :: es) -> w <> [] -> bws_ok w ->
+  parse relaxed cap init_state (ds ++ enc_exts (e :: es) ++ w ++ crlf ++ x) = PThrow EExtCrlf [].
+Proof.
+  intros Hd Hes Hwne Hw. inversion Hes as [|? ? He Hes']; subst.
+  set (Z := w ++ 13 :: 10 :: x). change (w ++ crlf ++ x) with Z.
+  rewrite enc_exts_cons.
+  set (Y := 59 :: x_w2 e ++ x_name e ++ enc_val (x_val e) ++ enc_exts es ++ Z).
+  assert (HY : head_ok Y) by (unfold Y; cbn [head_ok]; repeat split; try (vm_compute; reflexivity); lia).
+  destruct (size_step (norm_state init_state) ds v (x_w1 e) Y (ds ++ x_w1 e ++ Y) [] Hd (bws_wsp _ (proj1 He)) HY (app_nil_r _))
+    as [[_ [l Hl]]|(l & Hlne & Htok & Hl & Hsz)].
+  { exfalso. apply (f_equal (@length N)) in Hl. repeat rewrite app_length in Hl. unfold Y in Hl. cbn [length] in Hl. lia. }
+  rewrite app_nil_r in Hl. subst l.
+  pose proof (digits_len _ _ Hd) as Hdl. destruct ds as [|d0 ds']; [cbn in Hdl; lia|]. cbn [app].
+  rewrite parse_at_size by (left; reflexivity). change (d0 :: ds' ++ x_w1 e ++ Y) with ((d0 :: ds') ++ x_w1 e ++ Y).
+  rewrite Hsz. cbn [length app]. rewrite parse_loop_eq. cbn [p_stage size_state]. rewrite meta_eq.
+  set (e' := {| x_w1 := []; x_w2 := x_w2 e; x_name := x_name e; x_val := x_val e |}).
+  assert (He' : ext_ok e').
+  { destruct He as (H1 & H2 & H3 & H4 & H5). unfold ext_ok, e'. cbn [x_w1 x_w2 x_name x_val]. repeat split; try assumption; try reflexivity.
+    - apply H3. - apply H3.
+    - unfold enc_ext in *. cbn [x_w1 x_w2 x_name x_val app] in *. rewrite lenN_app in H5. lia. }
+  assert (HYe : Y = enc_exts (e' :: es) ++ Z) by (rewrite enc_exts_cons; reflexivity).
+  rewrite HYe. unfold Z. rewrite (exts_valid_tail relaxed w x Hw (e' :: es) _ (Forall_cons _ He' Hes')).
+  rewrite skipRequired_crlf_cases. destruct w as [|c w']; [congruence|]. cbn [app].
+  unfold bws_ok in Hw. cbn [forallb] in Hw. apply andb_prop in Hw as [Hc _].
+  replace (c =? 13) with false; [reflexivity|]. unfold rfc_bws in Hc. lia.
+Qed.
+
+Theorem reject_ext_trailing_bws_every_segmentation relaxed ds v e es w x segments :
+  digits_ok ds v -> Forall ext_ok (e :: es) -> w <> [] -> bws_ok w ->
+  segments <> [] -> concat segments = ds ++ enc_exts (e :: es) ++ w ++ crlf ++ x -> lenN (concat segments) <= npos ->
+  decode_segments relaxed segments = Incremental.Bad (BThrow EExtCrlf []).
+Proof.
+  intros Hd Hes Hwne Hw Hne Hc Hf. rewrite decode_segmentation_independent by assumption.
+  unfold decode_whole. rewrite step_cls. cbn [d_p d_out dstate0]. rewrite Hc.
+  rewrite (reject_ext_trailing_bws relaxed ample ds v e es w x Hd Hes Hwne Hw). reflexivity.
+Qed.
